@@ -52,7 +52,7 @@ META["C01"] = dict(
     technique="Lean 4 invariant proof over hand model + trace-level differential correspondence",
 )
 META["C08"] = dict(
-    text="Lean 4 theorems: FanoutMany keeps exactly the entries that did not answer Err and hands the item to every one of them (c08_fanout_*), a subscriber that never fails survives any poll (c08_healthy_subscriber_survives), survivors keep the exactly-once-in-order invariant whatever the others do (c08_survivors_unharmed); fault scripts at every (child, operation, position) are replayed on the real FanoutMany/Topic and compared with the model; request/reply router: c08_replier_dropped_only_for_cause and c08_requestor_dropped_only_when_its_own_sink_failed - over every history every drop in the child-call trace has a cause of that socket's own (invariants Justified / JustifiedC through the blocks A..G), the same statement is monitored on the real router's trace; c08_dropped_replier_is_never_called_again: whatever follows a replier socket's drop in the trace, none of it concerns that socket",
+    text="Lean 4 theorems: FanoutMany keeps exactly the entries that did not answer Err and hands the item to every one of them (c08_fanout_*), a subscriber that never fails survives any poll (c08_healthy_subscriber_survives), survivors keep the exactly-once-in-order invariant whatever the others do (c08_survivors_unharmed); fault scripts at every (child, operation, position) are replayed on the real FanoutMany/Topic and compared with the model; request/reply router: c08_replier_dropped_only_for_cause and c08_requestor_dropped_only_when_its_own_sink_failed - over every history every drop in the child-call trace has a cause of that socket's own (invariants Justified / JustifiedC through the blocks A..G), the same statement is monitored on the real router's trace; c08_dropped_replier_is_never_called_again: whatever follows a replier socket's drop in the trace, none of it concerns that socket; c08_evicted_requestor_sink_is_never_called_again: the same for a requestor's sink after its eviction (every Router operation visits an entry once, for every iteration order)",
     design_ref="DESIGN.md section 6, C08",
     note="pub/sub half; request/reply half in the second part of Props/C08.lean when present",
     technique="Lean 4 proof over hand model + fault-script differential correspondence",
